@@ -289,7 +289,7 @@ class Worker:
                 pass
             self.p = None
 
-    def run(self, job, timeout=15):
+    def run(self, job, timeout=6):
         _prepare_slot(self.slot, job)
         if self.p is None or self.p.poll() is not None:
             self.start()
@@ -355,6 +355,8 @@ class Runner:
         self.slots = [work.fast("slot-%s-%d" % (mode, i)) for i in range(n)]
         self.workers = [Worker(self.verif, s) for s in self.slots] if mode == "worker" else None
         self.count = 0
+        self.max_stuck = 8
+        self.skipped = 0
 
     def close(self):
         if self.workers:
@@ -374,6 +376,7 @@ class Runner:
         for i, j in enumerate(jobs):
             q.put((i, j))
         errors = []
+        stuck = [0]
 
         def loop(slot):
             while True:
@@ -381,8 +384,16 @@ class Runner:
                     i, j = q.get_nowait()
                 except queue.Empty:
                     return
+                if stuck[0] >= self.max_stuck:
+                    # the tree under test hangs without reading input on many jobs: enough examples,
+                    # do not spend 6 s on each of the rest (never happens on a tree that terminates)
+                    results[i] = Result(out="", exit=0, skipped=True)
+                    self.skipped += 1
+                    continue
                 try:
                     results[i] = self.run_one(j, slot)
+                    if results[i].get("cls") == "hang:worker-timeout":
+                        stuck[0] += 1
                 except Exception as e:  # harness trouble
                     errors.append(e)
                     results[i] = Result(out="", exit=-1, harness_error=str(e))
